@@ -458,6 +458,142 @@ func runC15(c *Ctx) {
 		}
 	}
 	c.Floor("engine-op", 15)
+	// a timer whose channel was already received from (the timer fired and a select took the value) must not be drained
+	// again: the idiom `if !t.Stop() { <-t.C }` then waits for a value that never comes. After the fired case the timer
+	// variable has to be cleared or replaced before any such drain can run.
+	for _, name := range loopNames {
+		fn := loops[name]
+		fns := withAnon(fn)
+		for _, in := range fnInstrs(fn) {
+			al, ok := in.(*ssa.Alloc)
+			if !ok || !strings.HasSuffix(typeStr(al.Type()), "**time.Timer") {
+				continue
+			}
+			vname := al.Comment
+			isVar := func(v ssa.Value) bool {
+				if v == ssa.Value(al) {
+					return true
+				}
+				fv, ok := v.(*ssa.FreeVar)
+				return ok && fv.Name() == vname && strings.HasSuffix(typeStr(fv.Type()), "**time.Timer")
+			}
+			isTimerC := func(v ssa.Value) bool { // *(&(*timerVar).C)
+				u, ok := v.(*ssa.UnOp)
+				if !ok || u.Op != token.MUL {
+					return false
+				}
+				fa, ok := u.X.(*ssa.FieldAddr)
+				if !ok || fieldName(fa.X.Type(), fa.Field) != "C" {
+					return false
+				}
+				ld, ok := fa.X.(*ssa.UnOp)
+				return ok && ld.Op == token.MUL && isVar(ld.X)
+			}
+			drains := map[*ssa.Function]bool{}
+			for _, g := range fns {
+				for _, gi := range fnInstrs(g) {
+					if u, ok := gi.(*ssa.UnOp); ok && u.Op == token.ARROW && isTimerC(u.X) {
+						drains[g] = true
+					}
+				}
+			}
+			for changed := true; changed; {
+				changed = false
+				for _, g := range fns {
+					if drains[g] || g == fn {
+						continue
+					}
+					for _, ci := range allCalls(g) {
+						if h := resolveCallee(ci.Common()); h != nil && drains[h] {
+							drains[g] = true
+							changed = true
+						}
+					}
+				}
+			}
+			if len(drains) == 0 {
+				continue
+			}
+			returnsTimerC := func(h *ssa.Function) bool {
+				if h == nil {
+					return false
+				}
+				for _, b := range h.Blocks {
+					if r, ok := b.Instrs[len(b.Instrs)-1].(*ssa.Return); ok && len(r.Results) == 1 {
+						for _, v := range valuesOfPhi(r.Results[0]) {
+							if isTimerC(v) {
+								return true
+							}
+							if cv, isCv := v.(*ssa.ChangeType); isCv && isTimerC(cv.X) {
+								return true
+							}
+						}
+					}
+				}
+				return false
+			}
+			for _, b := range fn.Blocks {
+				for _, bi := range b.Instrs {
+					sel, ok := bi.(*ssa.Select)
+					if !ok {
+						continue
+					}
+					for i, st := range sel.States {
+						if st.Dir == types.SendOnly {
+							continue
+						}
+						fired := isTimerC(st.Chan)
+						if cl, isCall := st.Chan.(*ssa.Call); isCall && returnsTimerC(resolveCallee(&cl.Call)) {
+							fired = true
+						}
+						if cv, isCv := st.Chan.(*ssa.ChangeType); isCv && isTimerC(cv.X) {
+							fired = true
+						}
+						if !fired {
+							continue
+						}
+						body := selectCaseBody(sel, i)
+						if body == nil {
+							continue
+						}
+						seen := map[*ssa.BasicBlock]bool{}
+						q := []*ssa.BasicBlock{body}
+						bad := token.NoPos
+						for len(q) > 0 && bad == token.NoPos {
+							cur := q[0]
+							q = q[1:]
+							if seen[cur] {
+								continue
+							}
+							seen[cur] = true
+							cleared := false
+							for _, ci := range cur.Instrs {
+								if stt, isSt := ci.(*ssa.Store); isSt && isVar(stt.Addr) {
+									cleared = true
+									break
+								}
+								if u, isU := ci.(*ssa.UnOp); isU && u.Op == token.ARROW && isTimerC(u.X) {
+									bad = u.Pos()
+									break
+								}
+								if call, isCall := ci.(ssa.CallInstruction); isCall {
+									if h := resolveCallee(call.Common()); h != nil && drains[h] {
+										bad = call.Pos()
+										break
+									}
+								}
+							}
+							if cleared || bad != token.NoPos {
+								continue
+							}
+							q = append(q, cur.Succs...)
+						}
+						c.Check(bad == token.NoPos, "engine-op", stableFuncKey(fn)+":timer-fired-then-drained:"+vname, sel.Pos(), "after the timer fired its variable is cleared before any drain of its channel can run", "after the select has received the timer's value, "+vname+" is still set when the drain at "+c.pos(bad)+" runs: Stop() reports false for a fired timer and `<-"+vname+".C` then waits forever — the engine goroutine leaks")
+					}
+				}
+			}
+		}
+	}
 	// doneChan pairing: closed only by the goroutine that waited for both loop-done channels; stopChan closed once (onceStop)
 	c.checkCloseOwners()
 
@@ -580,6 +716,140 @@ func runC15(c *Ctx) {
 		}
 	}
 	c.Note("API/connection-context blocking operations: %d", nA)
+
+	// ---------------- a wait for the protocol to finish is made without a lock the handlers need
+	// Stop()-like code that waits for the done channel while holding a mutex a message handler also takes can never
+	// return when a handler is in flight: the handler blocks on the mutex, recvLoop cannot exit, the done channel never closes.
+	{
+		type mkey struct{ typ, field string }
+		lockOf := func(ci ssa.CallInstruction) (mkey, string, bool) {
+			cn := calleeName(ci.Common())
+			kind := ""
+			switch cn {
+			case "sync.(*Mutex).Lock", "sync.(*RWMutex).Lock", "sync.(*RWMutex).RLock":
+				kind = "lock"
+			case "sync.(*Mutex).Unlock", "sync.(*RWMutex).Unlock", "sync.(*RWMutex).RUnlock":
+				kind = "unlock"
+			default:
+				return mkey{}, "", false
+			}
+			if len(ci.Common().Args) == 0 {
+				return mkey{}, "", false
+			}
+			fa, ok := ci.Common().Args[0].(*ssa.FieldAddr)
+			if !ok {
+				return mkey{}, "", false
+			}
+			return mkey{strings.TrimPrefix(typeStr(fa.X.Type()), "*"), fieldName(fa.X.Type(), fa.Field)}, kind, true
+		}
+		handlerLocks := map[mkey]string{}
+		for f := range H {
+			if inLoops[f] {
+				continue
+			}
+			for _, ci := range allCalls(f) {
+				if _, isDefer := ci.(*ssa.Defer); isDefer {
+					continue
+				}
+				if mk, kind, ok := lockOf(ci); ok && kind == "lock" {
+					handlerLocks[mk] = ssaFuncKey(f)
+				}
+			}
+		}
+		doneLike := func(ch string) bool {
+			return strings.Contains(ch, "DoneChan()") || strings.Contains(ch, ".DoneChan(") || strings.HasSuffix(ch, ".doneChan") || strings.HasSuffix(ch, ".recvDoneChan")
+		}
+		nW := 0
+		for _, f := range afns {
+			if H[f] {
+				continue
+			}
+			for _, op := range blockingOps(f) {
+				if op.dflt || len(op.sends) > 0 || len(op.recvs) == 0 {
+					continue
+				}
+				all := true
+				for i, r := range op.recvs {
+					w := ""
+					if i < len(op.wakes) {
+						w = op.wakes[i]
+					}
+					if !doneLike(r) && !doneLike(w) {
+						all = false
+					}
+				}
+				if !all {
+					continue
+				}
+				nW++
+				// locks that may be held here
+				held := map[mkey]token.Pos{}
+				for _, ci := range allCalls(f) {
+					if _, isDefer := ci.(*ssa.Defer); isDefer {
+						continue
+					}
+					mk, kind, ok := lockOf(ci)
+					if !ok || kind != "lock" {
+						continue
+					}
+					// forward walk from the Lock to the wait, stopping at a (non-deferred) Unlock of the same mutex
+					type pt struct {
+						b *ssa.BasicBlock
+						i int
+					}
+					seenB := map[*ssa.BasicBlock]bool{}
+					var q []pt
+					lb := ci.Block()
+					for i, in := range lb.Instrs {
+						if in == ci.(ssa.Instruction) {
+							q = append(q, pt{lb, i + 1})
+						}
+					}
+					found := false
+					for len(q) > 0 && !found {
+						cur := q[0]
+						q = q[1:]
+						released := false
+						for i := cur.i; i < len(cur.b.Instrs); i++ {
+							in := cur.b.Instrs[i]
+							if in == op.instr {
+								found = true
+								break
+							}
+							if cj, isCall := in.(ssa.CallInstruction); isCall {
+								if _, isDefer := in.(*ssa.Defer); !isDefer {
+									if mk2, kind2, ok2 := lockOf(cj); ok2 && kind2 == "unlock" && mk2 == mk {
+										released = true
+										break
+									}
+								}
+							}
+						}
+						if found || released {
+							continue
+						}
+						for _, sb := range cur.b.Succs {
+							if !seenB[sb] {
+								seenB[sb] = true
+								q = append(q, pt{sb, 0})
+							}
+						}
+					}
+					if found {
+						held[mk] = ci.Pos()
+					}
+				}
+				bad := ""
+				for mk := range held {
+					if hf, ok := handlerLocks[mk]; ok {
+						bad = mk.field + " (taken by " + hf + ")"
+					}
+				}
+				c.Check(bad == "", "done-wait-lock-free", opKey(op), op.instr.Pos(), "the wait for the protocol to finish holds no mutex a message handler takes", "waits for the protocol's done channel while holding "+bad+": a handler in flight blocks on that mutex, the receive loop cannot exit, and the wait never ends")
+			}
+		}
+		c.Note("waits for protocol completion examined for held handler locks: %d", nW)
+	}
 
 	// ---------------- muxer
 	for _, fn := range c.pkgFuncs("muxer") {
@@ -706,6 +976,28 @@ func (c *Ctx) opSites(op blockOp, inCtx func(*ssa.Function) bool, depth int) []o
 }
 
 // engineOpOK: operation of an engine loop is wake-able by W (or audited).
+// valuesOfPhi: the incoming values of a (possibly nested) phi, or the value itself.
+func valuesOfPhi(v ssa.Value) []ssa.Value {
+	var out []ssa.Value
+	seen := map[ssa.Value]bool{}
+	var walk func(x ssa.Value, d int)
+	walk = func(x ssa.Value, d int) {
+		if seen[x] || d > 5 {
+			return
+		}
+		seen[x] = true
+		if ph, ok := x.(*ssa.Phi); ok {
+			for _, e := range ph.Edges {
+				walk(e, d+1)
+			}
+			return
+		}
+		out = append(out, x)
+	}
+	walk(v, 0)
+	return out
+}
+
 // engineFuncs: what runs on an engine goroutine — the loop, its closures, and the unexported functions of its own
 // package it calls statically (not what it starts with go, and not exported API such as SendError, which callers on
 // other goroutines share and which is judged in the API section).
